@@ -31,7 +31,7 @@ def serial_bytes(n):
 RAW_FORMS = {"!empty": b"", "!null": b"\x05\x00"}      # the two other spellings of a raw value
 
 
-def mk(cid, attrs, serial=None, iuid=None, suid=None, profile="none", blanks=True, klass=""):
+def mk(cid, attrs, serial=None, iuid=None, suid=None, profile="none", blanks=True, klass="", pick=None):
     subj = (", " if blanks else ",").join("%s=%s" % (keytxt(k), v) for k, v in attrs)
     spell = lambda u: None if u is None else u if isinstance(u, str) else ("!binary:" + b64(u)) if u else None
     c = cfg(subj, serialNumber=serial, issuerUniqueId=spell(iuid), subjectUniqueId=spell(suid))
@@ -42,6 +42,17 @@ def mk(cid, attrs, serial=None, iuid=None, suid=None, profile="none", blanks=Tru
         if profile == "matching":
             # the profile's schema only knows a subset of short names: use it when all keys are in it
             p["subjectAttributes"] = {"attributes": [{"attribute": keytxt(k)} for k, _ in attrs], "allowOther": False}
+        elif profile == "allowother":
+            # other attributes allowed; mandatory: the attributes at the positions `pick` (in written order), plus an optional one nobody has
+            p["subjectAttributes"] = {"attributes": [{"attribute": keytxt(attrs[i][0])} for i in pick] + [{"attribute": "STREET", "optional": True}], "allowOther": True}
+        elif profile == "optionals":
+            # every attribute of the subject in order, optional ones the subject leaves out in between (positions `pick` get one in front)
+            al = []
+            for i, (k, _) in enumerate(attrs):
+                if i in pick:
+                    al.append({"attribute": "L", "optional": True})
+                al.append({"attribute": keytxt(k)})
+            p["subjectAttributes"] = {"attributes": al + [{"attribute": "ST", "optional": True}], "allowOther": False}
         files.append(("profiles/prof.yaml", p))
         c["profile"] = "prof"
     files.append(("e.yaml", json.dumps(c, ensure_ascii=False)))
@@ -74,15 +85,26 @@ def cases(ctx):
         ln = r.randrange(2, 9)
         ks = r.sample(keys, ln)
         attrs = [(k, r.choice(VALUES[r.choice(list(VALUES))])) for k in ks]
-        prof = r.choice(["none", "nosubj", "matching"])
-        if prof == "matching" and not all(isinstance(k, str) and k in PROFILE_ATTRS for k, _ in attrs):
+        prof = r.choice(["none", "nosubj", "matching", "allowother", "optionals"])
+        if prof in ("matching", "allowother", "optionals") and not all(isinstance(k, str) and k in PROFILE_ATTRS for k, _ in attrs):
             attrs = [(k, v) for k, v in attrs if isinstance(k, str) and k in PROFILE_ATTRS] or [("CN", "only")]
-        add(attrs, profile=prof, blanks=r.random() < .7, klass="multi/" + prof,
+        if prof == "optionals":
+            attrs = [(k, v) for k, v in attrs if k not in ("L", "ST")] or [("CN", "only")]
+        if prof == "allowother":
+            attrs = [(k, v) for k, v in attrs if k != "STREET"] or [("CN", "only")]
+        pick = sorted(r.sample(range(len(attrs)), r.randrange(1, len(attrs) + 1))) if prof in ("allowother", "optionals") else None
+        add(attrs, profile=prof, blanks=r.random() < .7, klass="multi/" + prof, pick=pick,
             serial=r.choice([None, None, r.randrange(1, 2 ** 63)]))
     # the documented example order and a subject-constraining profile (the in-place reversal defect)
     for prof in ("none", "nosubj", "matching"):
         add([("CN", "Sub"), ("O", "Org"), ("C", "DE")], profile=prof, klass="order/" + prof)
         add([("C", "DE"), ("O", "Org"), ("OU", "Unit"), ("CN", "Leaf")], profile=prof, klass="order/" + prof)
+    # a profile that allows other attributes and asks for one or two of them - the last, one in the middle, the first
+    four = [("C", "DE"), ("O", "Example Org"), ("OU", "Operations"), ("CN", "server 01")]
+    for pick in ([3], [1], [0], [1, 2], [0, 3], [2, 3], [0, 1, 2, 3]):
+        add(four, profile="allowother", pick=pick, klass="order/allowother")
+        add(four[::-1], profile="allowother", pick=pick, klass="order/allowother")
+        add(four, profile="optionals", pick=pick, klass="order/optionals")
     # serials and unique ids
     for s in [0, 1, 127, 128, 255, 256, 2 ** 31, 2 ** 63 - 1] + [r.randrange(1, 2 ** 63) for _ in range(6)]:
         add([("CN", "serial")], serial=s, klass="serial")
